@@ -129,10 +129,16 @@ func C14(c *fw.Ctx) {
 		tag++
 		return model.CallN("p", model.Str(fmt.Sprintf("T%d", tag)), v)
 	}
+	pool := newProgPool(40)
+	defer func() {
+		// every ordered pair of an evenly spread sub-sequence of this shard's probe programs, as `{ P } { Q }`
+		composePairs(c, "probes", pool, judgeOpts{})
+	}()
 	run := func(sig string, e *model.N, extra ...*model.N) {
 		prog := append(c14Prelude(), extra...)
 		prog = append(prog, model.Print(e))
 		tag = 0
+		pool.offer(prog)
 		judgeAllSchedules(c, prog, sig)
 	}
 	allOps := append([]string{}, model.BinOps...)
